@@ -72,11 +72,12 @@ def spellings(k, period_ns, default_unit):
 
 
 class Speller(object):
-    def __init__(self, period_ns, default_unit, choices):
+    def __init__(self, period_ns, default_unit, choices, uniform=None):
         self.p = period_ns
         self.d = default_unit
         self.c = list(choices) or [0]
         self.i = 0
+        self.uniform = uniform      # a unit: every bound is written in it (equal sub-formulas get equal text)
 
     def take(self, n):
         x = self.c[self.i % len(self.c)]
@@ -84,6 +85,11 @@ class Speller(object):
         return x % n
 
     def __call__(self, a, b):
+        if self.uniform:
+            xa = decimal_text(Fraction(a * self.p) / U[self.uniform])
+            xb = decimal_text(Fraction(b * self.p) / U[self.uniform])
+            if xa is not None and xb is not None:
+                return '[%s%s,%s%s]' % (xa, self.uniform, xb, self.uniform)
         sa = [x for x in spellings(a, self.p, self.d) if x[1]]      # explicit-unit spellings
         sb = [x for x in spellings(b, self.p, self.d) if x[1]]
         mode = self.take(5)       # 0,1: both suffixed; 2: both bare (default unit); 3: lower bare; 4: upper bare
@@ -120,12 +126,25 @@ def ensure_timed(draw, f, mode):
 
 
 @st.composite
-def cases(draw, tier, mode):
-    prof = {'offline': PROF_OFF, 'online': PROF_PAST, 'pastified': PROF_ON}[mode]
+def cases(draw, tier, mode, wide=False):
+    prof = {'offline': PROF_OFF, 'online': PROF_PAST, 'pastified': PROF_ON}[mode].copy(reuse=0.3)
     if tier == 'thorough':
         prof = prof.copy(max_depth=4)
+    if wide:
+        # bounds of up to 999 sampling periods: literals with three significant digits in every unit
+        prof = prof.copy(max_bound=999, max_depth=3)
     f, vs = draw(F.formulas(prof))
+    if wide and draw(st.booleans()):
+        # punctual interval [k,k] directly above the formula
+        k = draw(st.integers(1, 999))
+        f = ('tun', draw(st.sampled_from(['once', 'historically'] if mode == 'online' else ['once', 'historically', 'eventually', 'always'])), k, k, f)
     f = draw(ensure_timed(f, mode))
+    if draw(st.integers(0, 3)) == 0:
+        # the same bounded sub-formula twice (two nodes with the same printed text under a uniform spelling)
+        timed = [s_ for s_ in F.subterms(f) if s_[0] in ('tun', 'tbin')]
+        g = draw(st.sampled_from(timed))
+        f = ('bin', draw(st.sampled_from(['and', 'or', 'implies'])), g, f) if draw(st.booleans()) else \
+            ('bin', draw(st.sampled_from(['and', 'or'])), f, ('un', 'not', g))
     pv, pu = draw(st.sampled_from(PERIODS))
     # two notations of the configuration
     cfgs = []
@@ -134,7 +153,8 @@ def cases(draw, tier, mode):
         # the period written in another unit
         alts = [(t, u) for (t, u) in spellings(1, pv * U[pu], None) if '.' not in t]
         pt, pun = draw(st.sampled_from(alts))
-        cfgs.append({'unit': du, 'period': [int(pt), pun], 'choices': draw(st.lists(st.integers(0, 11), min_size=12, max_size=12))})
+        cfgs.append({'unit': du, 'period': [int(pt), pun], 'choices': draw(st.lists(st.integers(0, 11), min_size=12, max_size=12)),
+                     'uniform': draw(st.sampled_from([None, None, 's', 'ms', 'us', 'ns']))})
     n = draw(F.trace_lengths(10))
     if mode == 'pastified':
         h = F.horizon(f) or 0
@@ -144,7 +164,7 @@ def cases(draw, tier, mode):
 
 
 def text_for(f, period_ns, cfg):
-    sp = Speller(period_ns, cfg['unit'], cfg['choices'])
+    sp = Speller(period_ns, cfg['unit'], cfg['choices'], cfg.get('uniform'))
     return 'out = ' + F.show(f, sp)
 
 
@@ -356,7 +376,277 @@ def cand_dense(case):
         yield c
 
 
+@st.composite
+def twin_cases(draw, tier):
+    """Two copies of one bounded operator over the same operands whose intervals show the same numerals with
+    different units ([1ms:1s] next to [1s:1s]): printed names must not make the online monitor share their state."""
+    vs = list(F.VAR_POOL[:2])
+    prof = PROF_PAST.copy(max_depth=2)
+    p, _ = draw(F.formulas(prof, variables=vs))
+    q, _ = draw(F.formulas(prof, variables=vs))
+    num_a = draw(st.sampled_from([1, 2, 3]))
+    num_b = draw(st.sampled_from([1, 2, 3, 5]))
+    fine, coarse = draw(st.sampled_from([('ms', 's'), ('us', 'ms'), ('ms', 's')]))
+    op = draw(st.sampled_from(['since'] + ['once', 'historically'] * 4))
+    n = draw(st.integers(3, 12))
+    if op == 'since':
+        # the bounded since costs (upper bound in samples)^2 per update: keep it tiny
+        num_a, num_b, n = 1, 1, draw(st.integers(2, 3))
+    return {'p': p, 'q': q, 'num_a': num_a, 'num_b': num_b, 'fine': fine, 'coarse': coarse, 'op': op, 'vars': vs,
+            'trace': draw(F.traces(vs, n=n)), 'join': draw(st.sampled_from(['or', 'and', 'implies'])),
+            'which': draw(st.sampled_from(['lower', 'upper']))}
+
+
+def check_twins(case):
+    p, q = from_json(case['p']), from_json(case['q'])
+    vs = list(case['vars'])
+    fine, coarse = case['fine'], case['coarse']
+    na, nb = case['num_a'], case['num_b']
+    ratio = U[coarse] // U[fine]                 # 1000
+    period = (1, fine)
+    # interval 1: [na fine : nb coarse], interval 2: [na coarse : nb coarse]  (needs na <= nb)
+    if na > nb:
+        na, nb = nb, na
+    k1 = (na, nb * ratio)
+    upper = case.get('which') == 'upper' and na <= nb
+    k2 = (na, nb) if upper else (na * ratio, nb * ratio)
+    op = case['op']
+
+    def node(k):
+        return ('tbin', 'since', k[0], k[1], p, q) if op == 'since' else ('tun', op, k[0], k[1], p)
+    f = ('bin', case['join'], node(k1), node(k2))
+    used = F.fvars(f)
+    labels = ['mode:twins', 'op:' + op]
+    if not used:
+        return DISCARD('no-variable', labels)
+    feed = [v for v in vs if v in used]
+    tr = {v: [float(x) for x in case['trace'][v]] for v in feed}
+    n = len(tr[feed[0]])
+    count = [0]
+
+    def bp(a, b):
+        count[0] += 1
+        if (a, b) == k1:
+            return '[%d%s:%d%s]' % (na, fine, nb, coarse)
+        if (a, b) == k2:
+            return '[%d%s:%d%s]' % ((na, fine, nb, fine) if upper else (na, coarse, nb, coarse))
+        return '[%d%s:%d%s]' % (a, fine, b, fine)
+    text = 'out = ' + F.show(f, bp)
+    try:
+        ref = dt(f, tr, n)
+    except Undefined:
+        return DISCARD('undefined', labels)
+    kw = dict(unit=coarse, period=(1, fine, 0.1))
+    tcol = [float(Fraction(i * U[fine], U[coarse])) for i in range(n)]
+    on = run_dt_on(text, feed, tr, time=tcol, **kw)
+    off = run_dt_off(text, feed, tr, time=tcol, **kw)
+    desc = 'spec: %s\nsampling period 1%s, default unit %s\ntrace: %s' % (text, fine, coarse, tr)
+    if on[0] != 'ok' or off[0] != 'ok':
+        bad = on if on[0] != 'ok' else off
+        return FAIL('twins-raises:%s' % bad[1], desc + '\nraised %s: %s at %s' % (bad[1], bad[3], bad[4]), labels)
+    offv = [x[1] for x in off[1]]
+    tol = needs_tolerance(f)
+    if any(not same(a, b, tol) for a, b in zip(offv, ref)):
+        return FAIL('twins-offline-differs', desc + '\noffline: %s\nreference: %s' % (fmt_vals(offv), fmt_vals(ref)), labels)
+    if any(not same(a, b, tol) for a, b in zip(on[1], ref)):
+        return FAIL('twins-online-differs', desc + '\nonline:  %s\noffline: %s' % (fmt_vals(on[1]), fmt_vals(offv)), labels)
+    return PASS(len(set(ref)) > 1, labels)
+
+
+@st.composite
+def punctual_cases(draw, tier):
+    """[k,k] with k up to 9999 sampling periods, the two ends spelled in two different explicit units (1.07s:1070ms)."""
+    pv, pu = draw(st.sampled_from(PERIODS))
+    k = draw(st.one_of(st.integers(1, 9999), st.integers(1, 200)))
+    sp = spellings(k, pv * U[pu], None)
+    ta, ua = draw(st.sampled_from(sp))
+    others = [x for x in sp if x[1] != ua] or sp
+    tb, ub = draw(st.sampled_from(others))
+    return {'k': k, 'period': [pv, pu], 'a': [ta, ua], 'b': [tb, ub], 'op': draw(st.sampled_from(['once', 'historically', 'eventually', 'always'])),
+            'unit': draw(st.sampled_from(UNITS)), 'x': [draw(F.values()) for _ in range(3)]}
+
+
+def check_punctual(case):
+    k = case['k']
+    pv, pu = case['period']
+    (ta, ua), (tb, ub) = case['a'], case['b']
+    op = case['op']
+    text = 'out = %s[%s%s:%s%s] (x >= 1)' % (op, ta, ua, tb, ub)
+    labels = ['mode:punctual']
+    f = ('tun', op, k, k, ('pred', '>=', ('var', 'x'), ('const', 1.0)))
+    tr = {'x': [float(v) for v in case['x']]}
+    ref = dt(f, tr, 3)
+    o = run_dt_off(text, ['x'], tr, time=time_column(3, pv * U[pu], case['unit']), unit=case['unit'], period=(pv, pu, 0.1))
+    desc = 'sampling period %s%s, default unit %s\nspec: %s  (both ends denote %d periods)\ntrace: %s' % (pv, pu, case['unit'], text, k, tr)
+    if o[0] != 'ok':
+        return FAIL('punctual-raises:%s@%s' % (o[1], o[4].split(':')[-1]), desc + '\nraised %s: %s at %s' % (o[1], o[3], o[4]), labels)
+    got = [p[1] for p in o[1]]
+    if any(not same(a, b, False) for a, b in zip(got, ref)):
+        return FAIL('punctual-differs', desc + '\nresult %s, reference %s' % (fmt_vals(got), fmt_vals(ref)), labels)
+    return PASS(ua != ub and ('.' in ta or '.' in tb), labels)
+
+
+@st.composite
+def constbound_cases(draw, tier):
+    """A bound delivered through a declared constant (value text possibly with many decimals) versus the literal."""
+    c = draw(punctual_cases(tier))
+    c['k2'] = c['k'] + draw(st.integers(0, 3))
+    c['mode'] = draw(st.sampled_from(['offline', 'online', 'pastified']))
+    return c
+
+
+def check_constbound(case):
+    from ..monitors import build
+    k, k2 = case['k'], case['k2']
+    pv, pu = case['period']
+    pn = pv * U[pu]
+    ta, ua = case['a']
+    mode = case['mode']
+    op = {'offline': case['op'], 'online': 'once' if case['op'] in ('once', 'eventually') else 'historically',
+          'pastified': case['op']}[mode]
+    # upper bound k2 periods written in the unit of the constant
+    tb = decimal_text(Fraction(k2 * pn) / U[ua])
+    labels = ['mode:constbound:' + mode]
+    if tb is None:
+        return DISCARD('unprintable', labels)
+    lit = 'out = %s[%s%s:%s%s] (x >= 1)' % (op, ta, ua, tb, ua)
+    con = 'out = %s[kb %s:%s%s] (x >= 1)' % (op, ua, tb, ua)
+    tr = {'x': [float(v) for v in case['x']]}
+    kw = dict(unit=case['unit'], period=(pv, pu, 0.1))
+    tcol = time_column(3, pn, case['unit'])
+    outs = []
+    for text, consts in ((lit, None), (con, [('kb', 'float', ta)])):
+        if mode == 'offline':
+            o = run_dt_off(text, ['x'], tr, time=tcol, consts=consts, **kw)
+            o = ('ok', [p[1] for p in o[1]]) if o[0] == 'ok' else o
+        else:
+            o = run_dt_on(text, ['x'], tr, time=tcol, consts=consts, pastify=(mode == 'pastified'), **kw)
+        outs.append(o)
+    desc = 'sampling period %s%s, default unit %s, %s\nliteral:  %s\nconstant: %s  with const kb = %s\ntrace: %s' % (pv, pu, case['unit'], mode, lit, con, ta, tr)
+    if outs[0][0] != 'ok':
+        return DISCARD('literal-raises(C17):' + outs[0][1], labels)
+    if outs[1][0] != 'ok':
+        return FAIL('constbound-raises:%s:%s' % (mode, outs[1][1]), desc + '\nconstant spelling raised %s: %s at %s' % (outs[1][1], outs[1][3], outs[1][4]), labels)
+    if any(not same(a, b, False) for a, b in zip(outs[0][1], outs[1][1])):
+        return FAIL('constbound-differs:' + mode, desc + '\nliteral %s, constant %s' % (fmt_vals(outs[0][1]), fmt_vals(outs[1][1])), labels)
+    return PASS('.' in ta, labels)
+
+
+@st.composite
+def dense_twin_cases(draw, tier):
+    """Dense time: two copies of a bounded operator whose intervals show the same numerals with a different unit on ONE
+    end ([1ms:2s] next to [1ms:2ms], or [1ms:2s] next to [1s:2s]); default unit = the fine unit, integer time stamps."""
+    vs = list(F.VAR_POOL[:2])
+    p, _ = draw(F.formulas(DENSE.copy(max_depth=2), variables=vs))
+    na = draw(st.sampled_from([1, 2, 3]))
+    nb = draw(st.sampled_from([2, 3, 5]))
+    if na > nb:
+        na, nb = nb, na
+    fine, coarse = draw(st.sampled_from([('ms', 's'), ('us', 'ms')]))
+    op = draw(st.sampled_from(['once', 'historically', 'eventually', 'always']))
+    which = draw(st.sampled_from(['upper', 'lower']))
+    sig = {}
+    for v in vs:
+        m = draw(st.integers(2, 6))
+        ks = sorted(set([0] + [draw(st.sampled_from([1, 2, 3, 5, 500, 1000, 1001, 1500, 2000, 2002, 3000, 4000, 5000, 6000])) for _ in range(m)]))
+        sig[v] = [[kk, draw(F.values())] for kk in ks]
+    return {'p': p, 'na': na, 'nb': nb, 'fine': fine, 'coarse': coarse, 'op': op, 'which': which, 'vars': vs, 'signals': sig,
+            'join': draw(st.sampled_from(['or', 'and', 'implies']))}
+
+
+def check_dense_twins(case):
+    """Metamorphic: the text with look-alike intervals ([1ms:2s] next to [1ms:2ms]) against the same specification with
+    every bound written in the fine unit ([1ms:2000ms] next to [1ms:2ms]); no reference needed (the domain is thousands of
+    cells long)."""
+    p = from_json(case['p'])
+    na, nb, fine, coarse, op = case['na'], case['nb'], case['fine'], case['coarse'], case['op']
+    ratio = U[coarse] // U[fine]
+    k1 = (na, nb * ratio)                                   # [na fine : nb coarse]
+    k2 = (na, nb) if case['which'] == 'upper' else (na * ratio, nb * ratio)
+    t2 = '[%d%s:%d%s]' % ((na, fine, nb, fine) if case['which'] == 'upper' else (na, coarse, nb, coarse))
+    t1 = '[%d%s:%d%s]' % (na, fine, nb, coarse)
+    f = ('bin', case['join'], ('tun', op, k1[0], k1[1], p), ('tun', op, k2[0], k2[1], p))
+    used = F.fvars(f)
+    labels = ['mode:dense-twins', 'which:' + case['which']]
+    if not used:
+        return DISCARD('no-variable', labels)
+    sig = {v: [[float(k), float(x)] for k, x in case['signals'][v]] for v in case['vars'] if v in used}
+    feed = list(sig)
+
+    def bp(a, b):
+        return t1 if (a, b) == k1 else (t2 if (a, b) == k2 else '[%d%s:%d%s]' % (a, fine, b, fine))
+    twin = 'out = ' + F.show(f, bp)
+    plain = 'out = ' + F.show(f, lambda a, b: '[%d%s:%d%s]' % (a, fine, b, fine))
+    o1 = run_ct_off(twin, feed, sig, unit=fine)
+    o2 = run_ct_off(plain, feed, sig, unit=fine)
+    desc = 'default unit %s\nlook-alike spelling: %s\nplain spelling:      %s\nsignals (time in %s): %s' % (fine, twin, plain, fine, sig)
+    if o2[0] != 'ok':
+        return DISCARD('plain-raises(C17)', labels)
+    if o1[0] != 'ok':
+        return FAIL('dense-twins-raises:%s' % o1[1], desc + '\nraised %s: %s at %s' % (o1[1], o1[3], o1[4]), labels)
+    if check_shape(o1[1]) or check_shape(o2[1]):
+        return DISCARD('shape(C04)', labels)
+    kend = min(s_[-1][0] for s_ in sig.values())
+    pts = set()
+    for out in (o1[1], o2[1]):
+        for t, _v in out:
+            for d in (-0.5, 0.0, 0.5):
+                if 0 <= t + d <= kend:
+                    pts.add(t + d)
+    for t in sorted(pts):
+        x, y = step_at(o1[1], t), step_at(o2[1], t)
+        if x is None or y is None or not same(x, y, False):
+            return FAIL('dense-twins-differ:' + case['which'], desc + '\nlook-alike: %r\nplain:      %r\nat t=%g: %r vs %r' % (o1[1], o2[1], t, x, y), labels)
+    return PASS(len(pts) > 2, labels)
+
+
+@st.composite
+def reconfig_cases(draw, tier):
+    c = draw(cases(tier, 'offline'))
+    c['second'] = draw(st.sampled_from([[1, 's'], [500, 'ms'], [250, 'ms'], [2, 's'], [100, 'ms']]))
+    c['first'] = draw(st.sampled_from([[1, 's'], [500, 'ms'], [1000, 'ms']]))
+    c['online'] = draw(st.booleans())
+    return c
+
+
+def check_reconfig(case):
+    """One object is evaluated under one sampling period, re-configured with set_sampling_period() and evaluated again:
+    the second result must be the one a fresh object gives under the second configuration (bounds are durations)."""
+    from ..monitors import build
+    f = from_json(case['formula'])
+    vs = [v for v in case['vars'] if v in F.fvars(f)]
+    labels = ['mode:reconfigure'] + feature_labels(f)
+    if not vs:
+        return DISCARD('no-variable', labels)
+    tr = {v: [float(x) for x in case['trace'][v]] for v in vs}
+    n = len(tr[vs[0]])
+    # bounds written in whole seconds: multiples of every period used here
+    text = 'out = ' + F.show(f, lambda a, b: '[%ds,%ds]' % (a, b))
+    p1, p2 = case['first'], case['second']
+    ds = {'time': [float(i) for i in range(n)], **{v: list(tr[v]) for v in vs}}
+    try:
+        fresh = build('dt_off', text, vs, period=(p2[0], p2[1], 0.1)).evaluate(dict(ds))
+        spec = build('dt_off', text, vs, period=(p1[0], p1[1], 0.1))
+        spec.evaluate(dict(ds))
+        spec.set_sampling_period(p2[0], p2[1], 0.1)
+        again = spec.evaluate(dict(ds))
+    except Exception as e:  # noqa
+        return DISCARD('raises(C17):' + type(e).__name__, labels)
+    a, b = [x[1] for x in again], [x[1] for x in fresh]
+    if any(not same(x, y, False) for x, y in zip(a, b)):
+        return FAIL('reconfigure-stale', 'spec: %s\ntrace: %s\nevaluated with period %s, then set_sampling_period(%s) and evaluated again: %s\nfresh object with period %s: %s' % (
+            text, tr, p1, p2, fmt_vals(a), p2, fmt_vals(b)), labels)
+    return PASS(p1 != p2 and F.max_bound(f) > 0 and len(set(b)) > 1, labels)
+
+
 LANES = [
+    Lane('wide', lambda tier: cases(tier, 'offline', wide=True), check, 600, 8000, std_candidates),
+    Lane('wide_online', lambda tier: cases(tier, 'online', wide=True), check, 300, 4000, std_candidates),
+    Lane('twins', lambda tier: twin_cases(tier), check_twins, 250, 4000, None),
+    Lane('constbound', lambda tier: constbound_cases(tier), check_constbound, 1200, 20000, None),
+    Lane('punctual', lambda tier: punctual_cases(tier), check_punctual, 2500, 40000, None),
+    Lane('dense_twins', lambda tier: dense_twin_cases(tier), check_dense_twins, 600, 8000, None),
+    Lane('reconfigure', lambda tier: reconfig_cases(tier), check_reconfig, 800, 10000, std_candidates),
     Lane('offline', lambda tier: cases(tier, 'offline'), check, 2500, 40000, std_candidates),
     Lane('online', lambda tier: cases(tier, 'online'), check, 1500, 20000, std_candidates),
     Lane('pastified', lambda tier: cases(tier, 'pastified'), check, 2500, 40000, std_candidates),
